@@ -147,6 +147,14 @@ func runEnergyScenario(seed uint64, size int, t *Trace) {
 			sb.WriteString("timestamp\n") // single-column header: fixes the field count at 1
 		}
 		n := r.Intn(8)
+		if it == 1 && r.Chance(12) {
+			// a meter that has been running for most of a year: well over a mebibyte of rows, one per slot
+			for i := 0; i < 70000+r.Intn(4000); i++ {
+				sb.WriteString(strconv.FormatInt(g+300*int64(i), 10) + "," + []string{"500", "75000001", "-30", "5", "1e3"}[i%5] + "\n")
+			}
+			t.Count("energy.large-file")
+			n = r.Intn(3)
+		}
 		for i := 0; i < n; i++ {
 			var ts string
 			switch r.pick([]int{50, 8, 8, 8, 8, 6, 6, 6}) {
